@@ -76,9 +76,9 @@ where
                 #(#methods_trait_impl)*
             }
 
-            impl <Contract: #interface_name> Executor
-                for #sylvia ::types::ExecutorBuilder<( #sylvia ::types::EmptyExecutorBuilderState, Contract )> {
-                #(type #generics = <Contract as #interface_name > :: #generics;)*
+            impl <ContractT: #interface_name> Executor
+                for #sylvia ::types::ExecutorBuilder<( #sylvia ::types::EmptyExecutorBuilderState, ContractT )> {
+                #(type #generics = <ContractT as #interface_name > :: #generics;)*
                 #(#methods_trait_impl)*
             }
         }
